@@ -384,11 +384,11 @@ def c07_invalid_series(case, seed, rng, tier, out, base, canon, desc0):
                             f'series of {V} (fusion accepter of {accepter_of}) is invalid ({kind})',
                             dict(desc0, invalid_tx=V, invalid_kind=kind, accepter_of=accepter_of,
                                  skip=True, threads=1, kind='skip-aborts-invalid')))
-                recs_v = [r for r in recs if not points_to(r)]
-                with gen_ref.quiet():
-                    inputs = list(gen_ref.write_gvfs(case, recs_v, names=[f'in_{vi}.gvf'],
-                                                     circ_name=f'in_{vi}_circ.gvf'))
-                case.gvfs = list(gvfs_orig)
+                # (since fix 2d93653 the accepter load is tolerated under --skip-failed: the fusion
+                # records that point to V STAY in the input — V's series is then loaded twice in one
+                # run, once as accepter and once on V's own turn, and the reference run, which lacks
+                # only V's OWN records, still has those fusions)
+                bump('invalid_series_also_accepter')
             own = [r for r in recs_v if r.transcript_id == V]
             # reference run: the same input without any record of V
             if own or accepter_of:
